@@ -513,7 +513,7 @@ def _default_bandwidth(case):
     what = case["entry"].split(".")[1]
     if case["entry"].startswith("DenseFunctionalData"):
         m = len(case["x"])
-        return float((m * m) ** (-1 / 5)) if what == "covariance" else float(np.prod([m]) ** (-1 / 5))
+        return float(np.prod((m, m)) ** (-1 / 5)) if what == "covariance" else float(np.prod((m,)) ** (-1 / 5))
     sizes = [len(o["t"]) for o in case["obs"]]
     if what == "covariance":
         m = len(sorted(set(t for o in case["obs"] for t in o["t"])))
@@ -717,7 +717,7 @@ def oracle(case, impl):
                 if seen["penalty"] is None or [float(v) for v in seen["penalty"]] != [float(v) for v in req["penalty"]]:
                     bad("options_forwarded", f"requested penalty {req['penalty']} but the smoother was fitted with {seen['penalty']}")
             else:
-                if seen["kernel"] != req["kernel"] or seen["degree"] != req["degree"] or seen["h"] != float(req["h"]):
+                if seen["kernel"] != req["kernel"] or seen["degree"] != req["degree"] or abs(seen["h"] - float(req["h"])) > 1e-12 * float(req["h"]):
                     bad("options_forwarded", f"requested kernel/bandwidth/degree {req['kernel']}/{float(req['h'])}/{req['degree']} but the smoother used {seen['kernel']}/{seen['h']}/{seen['degree']}")
     # histories on one object
     if "repeat" in impl:
